@@ -13,6 +13,16 @@ case input i : {"graph": G, "ops": [op...]}
 observation (one per state): {"pool":[{"p","n","st","held","q","rh","fl","sn","out":[triggers],"pre":[[[p,name,msg,sat]..]..]}..],
                               "launch":[[p,name,sn]..], "polls":[[p,name]..], "stalled":bool, "stop":str|null, "rl":p|null}
 -/
+/-
+Additions for `Sched3Set` (flows + `cylc set`), on top of the format described above:
+  G    : per instance "valid_pre": [[p,name,msg]..] (keys of TaskDef.get_prereqs); per task "required": [msg..],
+         "skip_out": [msg..]
+  op   : {"op":"cmd","name":"set_prereqs_and_outputs","args":{"tasks":["p/name"],"flow":[]|["new"]|["none"]|["1",..],
+          "flow_wait":bool,"outputs":[trigger..] | "prerequisites":["p/name:trigger"..]|["all"]}}   (one task id)
+  observation keys added: "fw": [[p,name]..] pooled proxies with flow_wait; "flow_counter"; "flows_known";
+         "ts": committed rows of task_states ⋈ task_outputs [p,name,flows,status,submit_num,flow_wait,[[trigger,forced]..]]
+         (null once the scheduler has stopped)
+-/
 import CylcModel.Util.Drv
 import CylcModel.Sched3Set
 open Lean CylcModel.Drv
